@@ -213,10 +213,15 @@ func boundedExpect(p, U *big.Int, nondet bool, m bMethod, a, b *big.Int) expect 
 			cls = fmt.Sprintf("regime%d", rl)
 		}
 	}
-	// straddling sub-class: operands on opposite sides of (p-1)/2 (input class for signatures)
+	// sub-class (for signatures): the two operands handed to the indicator / minimum hint lie on opposite
+	// sides of (p-1)/2.  IsLessEq(a,b) is IsLess(a,b+1), so its hint sees b+1.
 	half := new(big.Int).Rsh(p, 1)
-	if a.Cmp(half)*b.Cmp(half) == -1 {
-		cls += ",operands-on-opposite-sides-of-p/2"
+	hb := b
+	if m == mIsLessEq {
+		hb = modp(add(b, bi(1)), p)
+	}
+	if m.hasOutput() && a.Cmp(half)*hb.Cmp(half) == -1 {
+		cls += ",hint-operands-on-opposite-sides-of-p/2"
 	}
 	combine := func(x, y allowT) allowT {
 		if x.any {
@@ -409,7 +414,8 @@ func aimedComparator(m bMethod, w *big.Int) []combo {
 		return nil
 	}
 	cbs := []combo{{base}}
-	for _, l := range nBitsLies() {
+	nb := nBitsLies()
+	for _, l := range []lie{nb[0], nb[2], nb[3]} {
 		cbs = append(cbs, combo{base, l})
 	}
 	return cbs
@@ -449,8 +455,9 @@ func runBoundedCase(r *vcore.Run, a *acc, s *sysT, p, U *big.Int, nondet bool, m
 	} else if exp.kind == kUnsat {
 		r.SampleClass("cmp.bounded/out-of-domain-rejected", map[string]any{"system": s.String(), "a": av.String(), "b": bv.String(), "class": exp.class, "solver_said": errStr(res.err)})
 	}
-	c.confirm()
+	a.count("cmp.bounded.expect."+[...]string{"exact", "no-proof", "no-proof-or-listed", "undefined"}[exp.kind], 1)
 	if doLies {
+		c.confirm()
 		for _, cb := range comparatorCombos(m == mIsLess || m == mIsLessEq, m == mMin) {
 			c.lieRun(cb)
 		}
@@ -486,6 +493,11 @@ func boundedTinyJobs(r *vcore.Run) []job {
 						g := boundedGadget(U, nondet, m, nil, nil)
 						s, err := compileG(fTiny, bld, g)
 						r.Eval("ctor|"+fTiny.name+"|"+bld+"|"+g.name, true)
+						if err == nil && !must && nondet && r.Quick() && u != 7 && u != 15 {
+							// the flag only changes the constructor's acceptance (never below 2^(L+1) < p here)
+							a.count("compiled.tinyfield."+bld, 1)
+							continue
+						}
 						if err != nil {
 							if !may {
 								a.count("compile.REFUSED-valid-config", 1)
@@ -504,14 +516,25 @@ func boundedTinyJobs(r *vcore.Run) []job {
 							continue
 						}
 						a.count("compiled.tinyfield."+bld, 1)
-						// lies on every pair for the thresholds that move bitlen; sampled otherwise in quick
-						liesAll := r.Thorough() || u == 1 || u == 3 || u == 4 || u == 7 || u == 8 || u == 15
+						// honest hints: every pair.  Dishonest hints: the constraints only see d=a-b, the hints see
+						// (a,b): every difference d with 2 (quick) / 12 (thorough) choices of a.
 						rng := r.Rand(fmt.Sprintf("bounded-tiny/%s/%d/%v/%d", bld, u, nondet, m))
+						pick := map[[2]int64]bool{}
+						for d := int64(0); d < 47; d++ {
+							for k := 0; k < r.Pick(2, 12); k++ {
+								pick[[2]int64{d, int64(rng.IntN(47))}] = true
+							}
+							pick[[2]int64{d, 23}] = true // a at (p-1)/2
+						}
+						// quick: the PLONK builder runs every pair for the widths that move bitlen(absDiffUpp), a third otherwise
+						thin := r.Quick() && bld == "scs" && !(u == 1 || u == 2 || u == 3 || u == 4 || u == 7 || u == 8 || u == 15)
 						for x := int64(0); x < 47; x++ {
 							for y := int64(0); y < 47; y++ {
-								doL := liesAll || rng.IntN(6) == 0
-								doA := r.Thorough() || rng.IntN(3) == 0
-								runBoundedCase(r, a, s, p, U, nondet, m, bi(x), bi(y), []*big.Int{bi(x), bi(y)}, doL, doA, r.Thorough() && u%4 == 3)
+								doL := pick[[2]int64{(x - y + 47) % 47, x}]
+								if thin && !doL && (x+y)%3 != int64(u%3) {
+									continue
+								}
+								runBoundedCase(r, a, s, p, U, nondet, m, bi(x), bi(y), []*big.Int{bi(x), bi(y)}, doL, doL, r.Thorough() && u%4 == 3)
 							}
 						}
 					}
@@ -569,15 +592,16 @@ func boundedBigJobs(r *vcore.Run) []job {
 			nondet bool
 		}
 		cfgs := []cfg{
-			{bi(1), false}, {bi(2), false}, {bi(255), false}, {bi(256), false},
-			{sub(pow2(32), bi(1)), false}, {pow2(64), false}, {add(pow2(128), bi(5)), false},
+			{bi(1), false}, {bi(255), false}, {bi(256), false}, {pow2(64), false},
 			{sub(pow2(nb-2), bi(1)), false}, // bitlen nb-2: the largest deterministic width
 			{sub(pow2(nb-1), bi(1)), true},  // bitlen nb-1: only with allowNonDeterministicBehaviour (when the constructor takes it)
 			{pow2(nb - 2), false},           // bitlen nb-1 without the flag: constructor decides
+			{pow2(nb - 2), true},            // bn254: valid only with the flag (p <= 2^(L+1)): the documented-undefined regime exists
 			{bi(0), false}, {new(big.Int).Set(p), true}, {sub(p, bi(1)), true}, {bi(-5), false},
 		}
 		if r.Thorough() {
-			cfgs = append(cfgs, cfg{bi(3), true}, cfg{bi(7), false}, cfg{sub(pow2(100), bi(1)), false}, cfg{pow2(nb - 3), false}, cfg{pow2(nb - 3), true})
+			cfgs = append(cfgs, cfg{bi(2), false}, cfg{sub(pow2(32), bi(1)), false}, cfg{add(pow2(128), bi(5)), false},
+				cfg{bi(3), true}, cfg{bi(7), false}, cfg{sub(pow2(100), bi(1)), false}, cfg{pow2(nb - 3), false}, cfg{pow2(nb - 3), true})
 		}
 		for _, bld := range builders {
 			for _, cf := range cfgs {
@@ -607,10 +631,12 @@ func boundedBigJobs(r *vcore.Run) []job {
 						}
 						a.count("compiled."+f.name+"."+bld, 1)
 						as, ds := boundedGrid(p, cf.U, rng)
-						for _, av := range as {
-							for _, d := range ds {
+						for _, d := range ds {
+							k1, k2 := rng.IntN(len(as)), rng.IntN(len(as))
+							for ai, av := range as {
 								bv := modp(sub(av, d), p)
-								runBoundedCase(r, a, s, p, cf.U, cf.nondet, m, av, bv, []*big.Int{av, bv}, true, true, false)
+								doL := ai == k1 || (r.Thorough() && (ai == k2 || ai == 4))
+								runBoundedCase(r, a, s, p, cf.U, cf.nondet, m, av, bv, []*big.Int{av, bv}, doL, doL, false)
 							}
 						}
 					}
@@ -737,19 +763,18 @@ func genericExpect(m gMethod, a, b *big.Int) expect {
 
 func genericCombos() []combo {
 	var cbs []combo
-	for _, l := range nBitsLies() {
+	nb := nBitsLies()
+	for i, l := range nb {
 		cbs = append(cbs, combo{l})
-		for k := 0; k < 3; k++ {
-			cbs = append(cbs, combo{l.nth(k)})
+		if i == 0 || i == 2 || i == 3 {
+			cbs = append(cbs, combo{l.nth(0)}, combo{l.nth(1)})
 		}
 	}
 	for _, l := range isLessLies() {
 		cbs = append(cbs, combo{l})
 	}
 	flip := isLessLies()[0]
-	for _, l := range nBitsLies() {
-		cbs = append(cbs, combo{flip, l}, combo{flip, l.nth(0)}, combo{flip, l.nth(1)})
-	}
+	cbs = append(cbs, combo{flip, nb[0].nth(0)}, combo{flip, nb[0].nth(1)}, combo{flip, nb[2]}, combo{flip, nb[3].nth(2)}, combo{flip, nb[5]})
 	return cbs
 }
 
@@ -866,7 +891,7 @@ func genericBigJobs(r *vcore.Run) []job {
 					vs := edgeValues(f, rng, r.Pick(2, 6))
 					for i, x := range vs {
 						for j, y := range vs {
-							doL := r.Thorough() || i == j || (i+j)%4 == 0
+							doL := i == j || rng.IntN(r.Pick(24, 4)) == 0
 							runGenericCase(r, a, s, fam, []*big.Int{x, y}, genericExpect(m, x, y), doL, cbs)
 						}
 					}
@@ -886,7 +911,7 @@ func genericBigJobs(r *vcore.Run) []job {
 								if side == 1 {
 									av, bv = x, cst
 								}
-								runGenericCase(r, a, sc, fam, []*big.Int{x}, genericExpect(m, av, bv), r.Thorough(), cbs)
+								runGenericCase(r, a, sc, fam, []*big.Int{x}, genericExpect(m, av, bv), rng.IntN(r.Pick(12, 3)) == 0, cbs)
 							}
 						}
 					}
@@ -975,6 +1000,9 @@ func binaryJobs(r *vcore.Run) []job {
 						} else {
 							top := pow2(n)
 							edge := []*big.Int{bi(0), bi(1), sub(top, bi(1)), sub(top, bi(2)), pow2(n - 1), sub(pow2(n-1), bi(1)), modp(f.p, top), modp(sub(f.p, bi(1)), top), randBelow(rng, top), randBelow(rng, top)}
+							if !f.tiny && r.Quick() {
+								edge = []*big.Int{bi(0), sub(top, bi(1)), pow2(n - 1), sub(pow2(n-1), bi(1)), modp(f.p, top), randBelow(rng, top)}
+							}
 							for _, x := range edge {
 								for _, y := range edge {
 									cases = append(cases, mk(x, y))
@@ -994,10 +1022,10 @@ func binaryJobs(r *vcore.Run) []job {
 							}
 						}
 						for i, in := range cases {
-							runGenericCase(r, a, s, fam, in, binaryExpect(orEq, n, in), r.Thorough() || i%5 == 0, cbs)
+							runGenericCase(r, a, s, fam, in, binaryExpect(orEq, n, in), (r.Thorough() && (f.tiny || i%3 == 0)) || i%7 == 0, cbs)
 						}
 						// non-boolean digits
-						for i := 0; i < r.Pick(12, 60); i++ {
+						for i := 0; i < r.Pick(6, 40); i++ {
 							in := mk(randBelow(rng, pow2(n)), randBelow(rng, pow2(n)))
 							k := rng.IntN(2 * n)
 							in[k] = []*big.Int{bi(2), sub(f.p, bi(1)), bi(3)}[rng.IntN(3)]
